@@ -374,7 +374,12 @@ class MgmComputation(VariableComputation):
             new_values, val_cost = self._compute_best_value()
             # The gain is the improvement brought by the best value: it is >= 0
             # whatever the mode, so that the largest gain is always the best move.
-            if self._mode == "min":
+            if val_cost == self.current_cost:
+                # No improvement possible. This also covers a current and a best
+                # cost that are both infinite, whose difference is not a number
+                # (and a nan gain would block the moves of the neighbors).
+                self._gain = 0
+            elif self._mode == "min":
                 self._gain = self.current_cost - val_cost
             else:
                 self._gain = val_cost - self.current_cost
